@@ -843,7 +843,8 @@ Definition default_fuel (t : stree) : nat := (tsize t + 4) * (tsize t + 4).
 
 (* segmentIndexAndLocalDocNumFromGlobal: sort.Search(len(offsets), offsets[x] > docNum) - 1.
    [search_gt] is the sort.Search part (first index whose offset exceeds docNum; offsets are
-   non-decreasing); the -1 makes an empty offsets slice an index-out-of-range panic. *)
+   non-decreasing); with an empty offsets slice the -1 would index offsets[-1] (the reader's
+   Advance returns early when the snapshot has no segment). *)
 Fixpoint search_gt (offs : list Z) (id : Z) : nat :=
   match offs with
   | [] => O
@@ -906,8 +907,11 @@ Definition tfr_adv (st : tfr_st) (t : Z) : step_res tfr_st :=
         else st
     | None => st
     end in
+  match tf_offs st0 with
+  | [] => Some (None, st0)                           (* if len(i.snapshot.segment) == 0 { return nil, nil } *)
+  | _ :: _ =>
   match seg_index_local (tf_offs st0) t with
-  | None => None                                   (* panic: index out of range [-1] (no segments) *)
+  | None => None                                   (* offsets[-1]: not reachable, offsets[0] = 0 <= ID *)
   | Some (si, ldoc) =>
       match nth_error (tf_iters st0) si, nth_error (tf_offs st0) si with
       | Some it, Some off =>
@@ -930,6 +934,7 @@ Definition tfr_adv (st : tfr_st) (t : Z) : step_res tfr_st :=
           end
       | _, _ => None
       end
+  end
   end.
 
 Definition tfr_init (unadorned : bool) (segs : list (list Z)) (offs : list Z) : tfr_st :=
